@@ -195,6 +195,8 @@ func (x *Exec) call(st *State, c *ast.CallExpr) []Value {
 						x.unsup(c.Pos(), "implicit address-of of non-struct for method call %s", exprText(c.Fun))
 					}
 					tmp := x.vc.allocRef(st)
+					// the allocation counter is positive and only grows
+					st.assume(tNot(tEq(tmp, mathInt(0))))
 					structT := rv.Ty
 					x.vc.storeStruct(st, tmp, structT, rv.T)
 					if embBase != nil {
